@@ -248,6 +248,78 @@ fn decl_options(d: &Sexp) -> String {
     }
 }
 
+/// Position of a column in the table-level `PRIMARY KEY (…)` list: the pseudo option `k<n>`.
+fn key_pos(d: &Sexp) -> Option<usize> {
+    match d {
+        Sexp::List(l) => l[1..].iter().filter_map(|o| o.as_atom().and_then(|a| a.strip_prefix('k')).and_then(|n| n.parse().ok())).next(),
+        _ => None,
+    }
+}
+
+/// `c0 int not null, c1 varchar, primary key (c1, c0)` from `(TY n)` / `(TY (opts o* [k<n>]))` decls.
+fn column_defs(ds: &[Sexp]) -> String {
+    let mut defs: Vec<String> = vec![];
+    let mut key: Vec<(usize, usize)> = vec![];
+    for (i, d) in ds.iter().enumerate() {
+        let d = d.as_list().unwrap();
+        defs.push(format!("c{i} {}{}", sql_ty(d[0].as_atom().unwrap()), decl_options(&d[1])));
+        if let Some(k) = key_pos(&d[1]) {
+            key.push((k, i));
+        }
+    }
+    key.sort();
+    if !key.is_empty() {
+        defs.push(format!("primary key ({})", key.iter().map(|(_, i)| format!("c{i}")).collect::<Vec<_>>().join(", ")));
+    }
+    defs.join(", ")
+}
+
+/// `(ddlt (decls …))`: the flags CREATE TABLE catalogues for every column of a table with a
+/// table-level key (memory engine); `ddltre`: on a disk database, after shutdown + reopen.
+fn run_ddlt(rt: &tokio::runtime::Runtime, l: &[Sexp], reopen: Option<(&str, usize)>) -> String {
+    let sql = format!("create table t({})", column_defs(&l[1].as_list().unwrap()[1..]));
+    let dir = reopen.map(|(wd, k)| std::path::Path::new(wd).join(format!("db{k}")));
+    if let Some(d) = &dir {
+        let _ = std::fs::remove_dir_all(d);
+    }
+    let flags = |db: &Database| -> String {
+        catalog_flags(db, "t").split(',').map(|c| c.rsplit(':').next().unwrap_or("?").to_string()).collect::<Vec<_>>().join(" ")
+    };
+    let r = catch(|| {
+        rt.block_on(async {
+            match (&dir, reopen) {
+                (Some(d), Some((_, k))) => {
+                    let (db, need_shutdown) = open_db("diskre", d, k).await;
+                    db.run(&sql).await.map_err(|e| e.to_string())?;
+                    if need_shutdown {
+                        db.shutdown().await.ok();
+                    }
+                    drop(db);
+                    let (db, need_shutdown) = open_db("diskre", d, k).await;
+                    let ans = format!("ok {}", flags(&db));
+                    if need_shutdown {
+                        db.shutdown().await.ok();
+                    }
+                    Ok::<_, String>(ans)
+                }
+                _ => {
+                    let db = Database::new_in_memory();
+                    db.run(&sql).await.map_err(|e| e.to_string())?;
+                    Ok::<_, String>(format!("ok {}", flags(&db)))
+                }
+            }
+        })
+    });
+    if let Some(d) = &dir {
+        let _ = std::fs::remove_dir_all(d);
+    }
+    match r {
+        Err(p) => format!("panic {}", p.chars().take(60).collect::<String>()),
+        Ok(Err(_)) => "err".into(),
+        Ok(Ok(s)) => s,
+    }
+}
+
 /// The catalogued constraint flags of every column of `table`: `n<0|1>p<0|1>` per column.
 fn catalog_flags(db: &Database, table: &str) -> String {
     let cat = db.verif_catalog();
@@ -366,16 +438,7 @@ fn run_ins(rt: &tokio::runtime::Runtime, l: &[Sexp], workdir: &str, k: usize) ->
         "selcast" => (Some(&l[2].as_list().unwrap()[1..]), &l[2].as_list().unwrap()[1..], None, &l[4].as_list().unwrap()[1..]),
         _ => (None, &l[2].as_list().unwrap()[1..], None, &l[3].as_list().unwrap()[1..]),
     };
-    let coldefs = |ds: &[Sexp]| -> String {
-        ds.iter()
-            .enumerate()
-            .map(|(i, d)| {
-                let d = d.as_list().unwrap();
-                format!("c{i} {}{}", sql_ty(d[0].as_atom().unwrap()), decl_options(&d[1]))
-            })
-            .collect::<Vec<_>>()
-            .join(", ")
-    };
+    let coldefs = |ds: &[Sexp]| -> String { column_defs(ds) };
     let dir = std::path::Path::new(workdir).join(format!("db{k}"));
     let _ = std::fs::remove_dir_all(&dir);
     let r = catch(|| {
@@ -612,7 +675,7 @@ fn gen_ins(r: &mut Rng) -> String {
     let ncols = 1 + r.below(4) as usize;
     let tys: Vec<&str> = (0..ncols).map(|_| *r.pick(&["INT", "INT", "SMALLINT", "BIGINT", "BOOLEAN", "STRING", "STRING"])).collect();
     let mut pk_used = false;
-    let decls: Vec<String> = tys
+    let mut opt_texts: Vec<String> = tys
         .iter()
         .map(|t| {
             if r.chance(2, 5) {
@@ -623,18 +686,30 @@ fn gen_ins(r: &mut Rng) -> String {
                     let o = *r.pick(&["null", "notnull", "notnull", "unique", "pk"]);
                     if o == "pk" && (pk_used || *t == "BOOLEAN") { os.push("unique"); } else { if o == "pk" { pk_used = true; } os.push(o); }
                 }
-                return format!("({t} (opts {}))", os.join(" "));
+                return format!("(opts {})", os.join(" "));
             }
             let n = match r.below(5) {
                 0 | 1 => "notnull",
                 2 if !pk_used && *t != "BOOLEAN" => { pk_used = true; "pk" }
                 _ => "null",
             };
-            format!("({t} {n})")
+            n.to_string()
         })
         .collect();
+    // a table-level PRIMARY KEY (c.., c..) over 1–3 columns in any order (never together with an
+    // inline key: the binder rejects that)
+    if !pk_used && r.chance(1, 2) {
+        let tys_s: Vec<String> = tys.iter().map(|t| t.to_string()).collect();
+        add_table_key(r, &tys_s, &mut opt_texts);
+    }
+    let decls: Vec<String> = tys.iter().zip(&opt_texts).map(|(t, o)| format!("({t} {o})")).collect();
     let nrows = 1 + r.below(5);
-    let rows: Vec<String> = (0..nrows)
+    let key = key_columns(&opt_texts);
+    let tys_s: Vec<String> = tys.iter().map(|t| t.to_string()).collect();
+    let all: Vec<usize> = (0..ncols).collect();
+    // NULL into each key column position (rows that convert otherwise)
+    let key_rows = if key.is_empty() { vec![] } else { key_null_rows(r, &tys_s, &tys_s, &all, &key) };
+    let mut rows: Vec<String> = (0..nrows)
         .map(|_| {
             let vs: Vec<String> = tys
                 .iter()
@@ -663,6 +738,7 @@ fn gen_ins(r: &mut Rng) -> String {
             format!("({})", vs.join(" "))
         })
         .collect();
+    rows.extend(key_rows);
     // the same scenario on both engines (adjacent requests; the check also compares the pair)
     format!(
         "(ins mem (decls {d}) (rows {r}))\n(ins disk (decls {d}) (rows {r}))\n(ins diskre (decls {d}) (rows {r}))",
@@ -715,6 +791,62 @@ fn gen_selcast(r: &mut Rng) -> String {
     format!("(selcast mem (src ({src} null)) {dst} (rows {rws}))\n(selcast disk (src ({src} null)) {dst} (rows {rws}))")
 }
 
+/// Marks 1–3 non-BOOLEAN columns, in any order, as the table-level `PRIMARY KEY (…)`: the option
+/// text of the n-th listed column gets the pseudo option `k<n>`. `opts[i]` is `null`, `notnull` or
+/// `(opts …)` (no inline PRIMARY KEY among them).
+fn add_table_key(r: &mut Rng, tys: &[String], opts: &mut [String]) {
+    let mut cand: Vec<usize> = (0..tys.len()).filter(|&i| tys[i] != "BOOLEAN").collect();
+    if cand.is_empty() {
+        return;
+    }
+    // random order
+    for i in (1..cand.len()).rev() {
+        let j = r.below(i as u64 + 1) as usize;
+        cand.swap(i, j);
+    }
+    let n = 1 + r.below(cand.len().min(3) as u64) as usize;
+    for (pos, &c) in cand[..n].iter().enumerate() {
+        let o = opts[c].clone();
+        opts[c] = if let Some(inner) = o.strip_suffix(')') {
+            format!("{inner} k{})", pos + 1)
+        } else if o == "null" {
+            // half of them with an explicit NULL option before the key (the key still forces NOT NULL)
+            if r.chance(1, 2) { format!("(opts k{})", pos + 1) } else { format!("(opts null k{})", pos + 1) }
+        } else {
+            format!("(opts {o} k{})", pos + 1)
+        };
+    }
+}
+
+/// A value of type `src` that every modelled column type `dst` accepts.
+fn safe_val(r: &mut Rng, src: &str, dst: &str) -> String {
+    match src {
+        "BOOLEAN" => format!("b:{}", r.chance(1, 2)),
+        "STRING" => if dst == "BOOLEAN" { format!("s:{}", hex(b"true")) } else if dst == "STRING" { format!("s:{}", hex(r.pick(&["a", "xy", ""]).as_bytes())) } else { format!("s:{}", hex(r.pick(&["1", "12", "-5"]).as_bytes())) },
+        "BIGINT" => format!("i64:{}", 1 + r.below(100)),
+        "SMALLINT" => format!("i16:{}", 1 + r.below(100)),
+        _ => format!("i32:{}", 1 + r.below(100)),
+    }
+}
+
+/// The columns of the table-level key (`k<n>` in the option text), in column order.
+fn key_columns(opts: &[String]) -> Vec<usize> {
+    (0..opts.len()).filter(|&i| opts[i].split(|c: char| c == ' ' || c == ')').any(|w| w.len() == 2 && w.starts_with('k') && w[1..].parse::<usize>().is_ok())).collect()
+}
+
+/// Rows that convert for sure, one with NULL in each key column position and one without NULL.
+fn key_null_rows(r: &mut Rng, src_tys: &[String], dst_tys: &[String], cols: &[usize], key: &[usize]) -> Vec<String> {
+    let mut rows = vec![];
+    for hole in key.iter().map(|&k| Some(k)).chain(std::iter::once(None)) {
+        if let Some(h) = hole {
+            if !cols.contains(&h) { continue; }
+        }
+        let vs: Vec<String> = cols.iter().map(|&c| if Some(c) == hole { "null".to_string() } else { safe_val(r, &src_tys[c], &dst_tys[c]) }).collect();
+        rows.push(format!("({})", vs.join(" ")));
+    }
+    rows
+}
+
 fn gen_decls(r: &mut Rng, n: usize) -> Vec<(String, String)> {
     (0..n)
         .map(|_| {
@@ -728,7 +860,13 @@ fn gen_decls(r: &mut Rng, n: usize) -> Vec<(String, String)> {
 /// `INSERT INTO t(subset of columns) VALUES (...)`
 fn gen_inscols(r: &mut Rng) -> String {
     let n = 2 + r.below(3) as usize;
-    let decls = gen_decls(r, n);
+    let mut decls = gen_decls(r, n);
+    if r.chance(2, 5) {
+        let tys: Vec<String> = decls.iter().map(|d| d.0.clone()).collect();
+        let mut os: Vec<String> = decls.iter().map(|d| d.1.clone()).collect();
+        add_table_key(r, &tys, &mut os);
+        for (d, o) in decls.iter_mut().zip(os) { d.1 = o; }
+    }
     let mut cols: Vec<usize> = (0..n).filter(|_| r.chance(1, 2)).collect();
     if cols.is_empty() {
         cols.push(0);
@@ -736,9 +874,16 @@ fn gen_inscols(r: &mut Rng) -> String {
     if r.chance(1, 3) {
         cols.reverse();
     }
-    let rows: Vec<String> = (0..1 + r.below(3))
+    let mut rows: Vec<String> = (0..1 + r.below(3))
         .map(|_| format!("({})", cols.iter().map(|&c| { let t = decls[c].0.clone(); ins_val(r, &t) }).collect::<Vec<_>>().join(" ")))
         .collect();
+    // table-level key: NULL into each listed key column (explicit), and a row without NULL (a key column
+    // left out of the column list is NULL by omission)
+    let key = key_columns(&decls.iter().map(|d| d.1.clone()).collect::<Vec<_>>());
+    if !key.is_empty() {
+        let tys: Vec<String> = decls.iter().map(|d| d.0.clone()).collect();
+        rows.extend(key_null_rows(r, &tys, &tys, &cols, &key));
+    }
     let d = decls.iter().map(|(t, n)| format!("({t} {n})")).collect::<Vec<_>>().join(" ");
     let c = cols.iter().map(|c| c.to_string()).collect::<Vec<_>>().join(" ");
     let rws = rows.join(" ");
@@ -749,16 +894,34 @@ fn gen_inscols(r: &mut Rng) -> String {
 fn gen_inssel(r: &mut Rng) -> String {
     let n = 1 + r.below(3) as usize;
     let src = gen_decls(r, n);
-    let decls: Vec<(String, String)> = src
+    let mut decls: Vec<(String, String)> = src
         .iter()
         .map(|(t, _)| {
             let t2 = if r.chance(3, 5) { t.clone() } else { (*r.pick(&["INT", "SMALLINT", "BIGINT", "BOOLEAN", "STRING"])).to_string() };
             (t2, (*r.pick(&["null", "null", "notnull"])).to_string())
         })
         .collect();
-    let rows: Vec<String> = (0..1 + r.below(4))
+    if r.chance(2, 5) {
+        let tys: Vec<String> = decls.iter().map(|d| d.0.clone()).collect();
+        let mut os: Vec<String> = decls.iter().map(|d| d.1.clone()).collect();
+        add_table_key(r, &tys, &mut os);
+        for (d, o) in decls.iter_mut().zip(os) { d.1 = o; }
+    }
+    let mut src = src;
+    let mut rows: Vec<String> = (0..1 + r.below(4))
         .map(|_| format!("({})", src.iter().map(|(t, _)| ins_val(r, t)).collect::<Vec<_>>().join(" ")))
         .collect();
+    // table-level key on `t`: half of the scenarios carry only rows that convert, with NULL from the
+    // SELECT source in ONE key column position (INSERT … SELECT is one statement: it must fail)
+    let key = key_columns(&decls.iter().map(|d| d.1.clone()).collect::<Vec<_>>());
+    if !key.is_empty() && r.chance(1, 2) {
+        let hole = key[r.below(key.len() as u64) as usize];
+        src[hole].1 = "null".to_string();
+        let st: Vec<String> = src.iter().map(|d| d.0.clone()).collect();
+        let dt: Vec<String> = decls.iter().map(|d| d.0.clone()).collect();
+        let all: Vec<usize> = (0..n).collect();
+        rows = key_null_rows(r, &st, &dt, &all, &[hole]);
+    }
     let s_ = src.iter().map(|(t, n)| format!("({t} {n})")).collect::<Vec<_>>().join(" ");
     let d = decls.iter().map(|(t, n)| format!("({t} {n})")).collect::<Vec<_>>().join(" ");
     let rws = rows.join(" ");
@@ -849,6 +1012,39 @@ fn main() {
                 // the same on a disk database, read back after shutdown + reopen
                 out += &format!("(ddlre {ty} (opts {}))\n", l.join(" "));
             }
+            // whole tables with a table-level PRIMARY KEY: every ordered choice of 1–3 key columns out of
+            // 1–3 columns, three draws of column options each (an inline PRIMARY KEY among them: bind error)
+            for ncols in 1..=3usize {
+                let mut keys: Vec<Vec<usize>> = vec![];
+                for a in 0..ncols {
+                    keys.push(vec![a]);
+                    for b in 0..ncols {
+                        if b == a { continue; }
+                        keys.push(vec![a, b]);
+                        for c in 0..ncols {
+                            if c == a || c == b { continue; }
+                            keys.push(vec![a, b, c]);
+                        }
+                    }
+                }
+                for key in &keys {
+                    for _ in 0..3 {
+                        let decls: Vec<String> = (0..ncols)
+                            .map(|i| {
+                                let ty = *r.pick(&["INT", "STRING", "BIGINT", "SMALLINT"]);
+                                let mut os: Vec<String> = (0..r.below(3)).map(|_| r.pick(&["null", "notnull", "unique", "null", "notnull", "unique", "pk"]).to_string()).collect();
+                                if let Some(pos) = key.iter().position(|&k| k == i) {
+                                    let at = r.below(os.len() as u64 + 1) as usize;
+                                    os.insert(at, format!("k{}", pos + 1));
+                                }
+                                format!("({ty} (opts {}))", os.join(" "))
+                            })
+                            .collect();
+                        out += &format!("(ddlt (decls {}))\n", decls.join(" "));
+                        out += &format!("(ddltre (decls {}))\n", decls.join(" "));
+                    }
+                }
+            }
             for _ in 0..n {
                 let line = match r.below(22) {
                     0..=11 => { let d = 1 + r.below(4) as u32; format!("(type {})", gen_t(&mut r, d)) }
@@ -888,6 +1084,11 @@ fn main() {
                         match catch(|| { add_p(&l[1], &mut e); e }) { Ok(e) => static_type(&e), Err(p) => format!("harness-error {p}") }
                     }
                     "ddl" => run_ddl(&rt, l, None),
+                    "ddlt" => run_ddlt(&rt, l, None),
+                    "ddltre" => {
+                        let wd = args.get(3).cloned().or_else(|| std::env::var("C16_WORK").ok()).expect("workdir");
+                        run_ddlt(&rt, l, Some((&wd, k)))
+                    }
                     "ddlre" => {
                         let wd = args.get(3).cloned().or_else(|| std::env::var("C16_WORK").ok()).expect("workdir");
                         run_ddl(&rt, l, Some((&wd, k)))
